@@ -18,6 +18,8 @@ Vocabulary (`dtdNames`, `dtdDistinct`, `noPcdata`, `dtdLive`, `toParticleV`) and
 `Proofs/OccursDtd`. -/
 import XsdataModel.Gen.Occurs
 import XsdataModel.Proofs.OccursDtd
+import XsdataModel.Proofs.DtdAttrs
+import XsdataModel.Gen.DtdElem
 
 namespace Props.C16
 open Py Xs.Gen
@@ -246,5 +248,94 @@ theorem dtd_duplicate_sites : ¬ DtdNonlistSound := by
       choice := some 2, sequence := some 1 }
     (by decide) rfl dupC_matches (by rw [dupC_occurs]; decide) (by decide)
   exact absurd this (by decide)
+
+/-! ## 4. attribute declarations: `#REQUIRED`, `#IMPLIED`, `#FIXED`, defaults
+
+`dtdAttrField d`: the dataclass field the pipeline generates for `<!ATTLIST e a TYPE default>`
+(`DtdMapper.build_attribute_restrictions`, then the XSD attribute machinery of `Gen/Attrs`);
+`DtdAttrDecl.allows` / `normalized`: the validity constraints of XML 1.0 3.3.2 and the value the
+application sees (Spec). -/
+
+/-- **Attribute defaults and fixed values are materialised as the DTD prescribes**: for every
+grammatical declaration, whatever a DTD-valid element carries for it, the strict parser accepts it
+and the field holds the given value, or the declared default / fixed value of an absent attribute,
+or nothing. -/
+theorem dtd_attribute_faithful (d : DtdAttrDecl) (hwf : d.wf = true) (x : Option Str)
+    (hx : d.allows x) : readAttr (dtdAttrField d) x = some (d.normalized x) :=
+  dtd_attribute_faithful_core d hwf x hx
+
+/-- the hypotheses are satisfiable: `a CDATA "D"`, attribute absent → `D` … -/
+example : readAttr (dtdAttrField { default := .noneD, value := some ['D'] }) none = some (some ['D']) :=
+  dtd_attribute_faithful { default := .noneD, value := some ['D'] } (by decide) none
+    (by simp [DtdAttrDecl.allows])
+
+/-- … `a CDATA #FIXED "F"`, attribute given (necessarily as `F`) → `F`, from a field with
+`init=False` -/
+example : readAttr (dtdAttrField { default := .fixed, value := some ['F'] }) (some ['F']) =
+    some (some ['F']) :=
+  dtd_attribute_faithful { default := .fixed, value := some ['F'] } (by decide) (some ['F'])
+    (by simp [DtdAttrDecl.allows])
+
+/-- **A required attribute field is present in every valid document**: a field without default
+only comes from `#REQUIRED`. -/
+theorem dtd_attribute_required_sound (d : DtdAttrDecl) (hwf : d.wf = true) (f : Field)
+    (h : dtdAttrField d = some f) (hm : f.default = .missing) :
+    d.default = .required ∧ ¬ d.allows none :=
+  dtd_attribute_required_core d hwf f h hm
+
+example : dtdAttrField { default := .required } = some { init := true, default := .missing } := by
+  decide
+
+/-! ## 5. element declarations: `EMPTY`, `ANY`, `(#PCDATA)`, mixed content
+
+`dtdClassFields t content`: the element fields of the class of `<!ELEMENT e …>` by the element type
+and content tree libxml2 reports (`DtdMapper.build_elements`, `build_mixed_content`, the FLATTEN
+handlers, `ProcessMixedContentClass`; model `Gen/DtdElem`). A mixed class has one wildcard list
+`content` (`0..unbounded`, `mixed=True`, namespace `##any`): no occurrence constraint is left that
+a valid document could violate. -/
+
+/-- `ANY` gives the extension of `xs:anyType`, i.e. one optional wildcard field -/
+theorem dtd_any_single_wildcard (c : Option DtdContent) :
+    dtdClassFields .any c = .anyTypeWildcard := by
+  cases c <;> rfl
+
+/-- "an element declaration whose content admits character data interleaved with child elements gets
+fields that can keep it" -/
+def DtdMixedKept : Prop :=
+  ∀ (t : DtdElemType) (c : Option DtdContent), t = .any ∨ t = .mixed →
+    (match c with | some (.pcdata _) => False | _ => True) →
+    (dtdClassFields t c).keepsMixedContent = true
+
+/-- **Defect (finding `C16-any-drops-text`)**: the class of `<!ELEMENT b ANY>` has a single wildcard
+field that is neither a list nor mixed: of the DTD-valid content `<b>tx<z>q</z>ty<d>dd</d></b>` the
+parser keeps `tx`, `z`, `d` in one generic element and drops `ty` ("Unassigned parsed object"). -/
+theorem dtd_any_drops_text : ¬ DtdMixedKept := by
+  intro h
+  have := h .any none (Or.inl rfl) trivial
+  exact absurd this (by decide)
+
+/-- **Mixed content `(#PCDATA | a | …)*` gives the wildcard list**, whatever the listed elements. -/
+theorem dtd_mixed_is_wildcard (o o' : Occur) (r : Option DtdContent) :
+    ∃ cs, dtdClassFields .mixed (some (.or o (some (.pcdata o')) r)) = .mixedWildcard cs :=
+  ⟨_, rfl⟩
+
+/-- `(#PCDATA | a)*` as libxml2 reports it: `or*(#PCDATA, a)` -/
+example : dtdClassFields .mixed
+    (some (.or .mult (some (.pcdata .once)) (some (.element ['a'] .once)))) =
+    .mixedWildcard [['a']] := by decide
+
+/-- **`EMPTY` gives no element fields** -/
+theorem dtd_empty_no_fields (c : Option DtdContent) : dtdClassFields .empty c = .plain [] := by
+  cases c <;> rfl
+
+/-- **The lone `(#PCDATA)`** (element type `mixed`, content the `#PCDATA` node itself) gives the
+text field `value` and no mixed class. -/
+theorem dtd_pcdata_value (o : Occur) : dtdClassFields .mixed (some (.pcdata o)) =
+    .plain [{ name := "value".toList, index := 0, min := (buildOccurs o).1, max := (buildOccurs o).2 }] := by
+  cases o <;> decide
+
+/-- **Element content goes through the occurrence arithmetic of sections 1–3** -/
+theorem dtd_element_content (c : DtdContent) :
+    dtdClassFields .element (some c) = .plain (occurs (dtdSites c)) := rfl
 
 end Props.C16
